@@ -36,19 +36,23 @@ LINKS = {
         "modules": ["RtrProofs.CLinkIntervals", "RtrProofs.CLinkMisc"],
         "theorems": ["Rtr.CLink.rtr_check_interval_range_eq", "Rtr.CLink.apply_interval_value_eq", "Rtr.CLink.rtr_check_interval_option_eq",
                      "Rtr.CLink.c_check_interval_option_in_range", "Rtr.CLink.c_eod_intervals_in_range",
-                     "Rtr.CLink.rtr_set_interval_mode_eq", "Rtr.CLink.rtr_set_interval_mode_model", "Rtr.CLink.rtr_get_interval_mode_eq"],
+                     "Rtr.CLink.rtr_set_interval_mode_eq", "Rtr.CLink.rtr_set_interval_mode_model", "Rtr.CLink.rtr_get_interval_mode_eq",
+                     "Rtr.CLink.tr_recv_all_eq", "Rtr.CLink.tr_recv_all_of_world", "Rtr.CLink.tr_recv_all_timeouts"],
+        "modules_extra": ["RtrProofs.CLinkIo"],
         "functions": ["rtr_check_interval_range", "apply_interval_value", "rtr_check_interval_option", "rtr_set_interval_mode",
-                      "rtr_get_interval_mode"],
-        "ops": "intervals",
+                      "rtr_get_interval_mode", "tr_recv_all"],
+        "ops": "intervals+io",
     },
     "C04": {
         "modules": ["RtrProofs.CLinkPdu"],
         "theorems": ["Rtr.CLink.rtr_get_pdu_type_eq", "Rtr.CLink.rtr_pdu_check_size_eq", "Rtr.CLink.rtr_pdu_check_size_safe",
                      "Rtr.CLink.rtr_pdu_check_size_mem_indep", "Rtr.CLink.rtr_pdu_check_size_true_iff",
-                     "Rtr.CLink.rtr_pdu_header_to_host_byte_order_view", "Rtr.CLink.rtr_convert_then_check_size_eq"],
+                     "Rtr.CLink.rtr_pdu_header_to_host_byte_order_view", "Rtr.CLink.rtr_convert_then_check_size_eq",
+                     "Rtr.CLink.tr_recv_all_eq", "Rtr.CLink.tr_recv_all_never_short"],
+        "modules_extra": ["RtrProofs.CLinkIo"],
         "functions": ["rtr_get_pdu_type", "rtr_pdu_check_size", "lrtr_convert_long", "lrtr_convert_short",
-                      "rtr_pdu_convert_header_byte_order", "rtr_pdu_header_to_host_byte_order"],
-        "ops": "pdu",
+                      "rtr_pdu_convert_header_byte_order", "rtr_pdu_header_to_host_byte_order", "tr_recv_all"],
+        "ops": "pdu+io",
     },
     "C10": {
         "modules": ["RtrProofs.CLinkMisc", "RtrProofs.CLinkSpki"],
@@ -59,9 +63,12 @@ LINKS = {
     },
     "C14": {
         "modules": ["RtrProofs.CLinkMisc"],
-        "theorems": ["Rtr.CLink.lrtr_convert_long_eq", "Rtr.CLink.lrtr_convert_short_eq"],
-        "functions": ["lrtr_convert_long", "lrtr_convert_short", "rtr_pdu_convert_header_byte_order", "rtr_pdu_header_to_host_byte_order"],
-        "ops": "conv",
+        "modules_extra": ["RtrProofs.CLinkIo"],
+        "theorems": ["Rtr.CLink.lrtr_convert_long_eq", "Rtr.CLink.lrtr_convert_short_eq",
+                     "Rtr.CLink.tr_send_all_eq", "Rtr.CLink.tr_send_all_of_world", "Rtr.CLink.tr_send_all_chunks", "Rtr.CLink.tr_send_all_timeouts"],
+        "functions": ["lrtr_convert_long", "lrtr_convert_short", "rtr_pdu_convert_header_byte_order", "rtr_pdu_header_to_host_byte_order",
+                      "tr_send_all"],
+        "ops": "conv+io",
     },
 }
 
@@ -208,7 +215,35 @@ def ops_conv(r, n):
     return ops
 
 
-OPS = {"bits": ops_bits, "intervals": ops_intervals, "pdu": ops_pdu, "hash": ops_hash, "conv": ops_conv}
+def ops_io(r, n):
+    """scripted transports for tr_send_all / tr_recv_all: partial answers, errors, zero answers, clock jumps around the deadline"""
+    ops = []
+    for fn in ("send_all", "recv_all"):
+        for _ in range(max(60, n // 3)):
+            ln = r.choice([1, 2, 8, 12, 20, 123, 3248, r.randrange(1, 400)])
+            timeout = r.choice([0, 1, 60, 3600, r.randrange(0, 100000), -1])
+            c0 = r.choice([0, 100, 10 ** 6, r.randrange(10 ** 9)])
+            now, left, rounds = c0, ln, []
+            for _k in range(r.randrange(0, 8)):
+                now += r.choice([0, 0, 1, timeout - 1 if timeout > 1 else 1, timeout, timeout + 1, r.randrange(0, 2 * abs(timeout) + 2)])
+                x = r.random()
+                if x < 0.12:
+                    a = r.choice([-1, -2, -3, -4])
+                elif x < 0.18:
+                    a = 0
+                else:
+                    a = max(1, min(left, r.choice([1, left, (left + 1) // 2, r.randrange(1, left + 1)]))) if left > 0 else 1
+                rounds.append("%d:%d" % (now, a))
+                if a < 0:
+                    break
+                left -= a
+                if left <= 0:
+                    break
+            ops.append("%s %d %d %s" % (fn, ln, timeout, ",".join([str(c0)] + rounds)))
+    return ops
+
+
+OPS = {"bits": ops_bits, "intervals": ops_intervals, "pdu": ops_pdu, "hash": ops_hash, "conv": ops_conv, "io": ops_io}
 
 
 def search(pid, tier):
@@ -219,7 +254,9 @@ def search(pid, tier):
     if not ok or not os.path.exists(drv):
         return None, 0, "the driver for the translated functions does not build against the current translation:\n" + log[-1500:]
     r = vlib.rng("cfun/" + pid)
-    ops = OPS[L["ops"]](r, 300 if tier == "quick" else 5000)
+    ops = []
+    for kind in L["ops"].split("+"):
+        ops += OPS[kind](r, 300 if tier == "quick" else 5000)
     out, rc, err = vlib.run_lines(drv, ops)
     if rc != 0 or len(out) != len(ops):
         return None, len(ops), "cfundriver failed (rc=%s, %d replies for %d ops): %s" % (rc, len(out), len(ops), err[-500:])
@@ -251,7 +288,7 @@ def link(rep, pid, tier=None):
     proved = False
     if "error" not in info:
         sub = vlib.Report(pid, tier)
-        proved = vlib.prove(sub, L["modules"], L["theorems"])
+        proved = vlib.prove(sub, L["modules"] + L.get("modules_extra", []), L["theorems"])
         for t, v in sub.obligations.items():
             rep.obligations[t] = v
         tie["axioms"] = sub.cov.get("axioms", {})
